@@ -128,8 +128,8 @@ End Handlers.
 
 (* ---- the projection on channel c ---- *)
 Section Project.
-Variable tx : N -> N.
-Variable mt : metrics.
+Variable txs : N -> N -> N.
+Variable mts : N -> metrics.
 Variable mbursts : list (N * list (N * N * N)).
 Variable c : N.
 Hypothesis Hc : c < NCH.
@@ -157,7 +157,7 @@ Definition plog (l : list (N * item)) : list item := flat_map (fun ci => if fst 
 Notation Rq := (ProjQueue.Rq proj_ev).
 
 Record Rp (M : mst) (S : st) : Prop := {
-  rp_ch : chs M c = ch S;
+  rp_ch : inst_of M c = ch S;
   rp_orc : orcs M c = orc S;
   rp_log : plog (mlog M) = log S;
   rp_q : Rq (mq M) (q S)
@@ -222,7 +222,7 @@ Proof.
   destruct (HP (enc_at c) enc_ev (log S) _ _ HS) as [[A1 [A2 [A3 A4]]] [evs [HF [B1 B2]]]].
   split; [|cbn [on back mq]; symmetry; exact A3].
   constructor; cbn [on back chs orcs mlog mq].
-  - unfold upd. rewrite N.eqb_refl. exact A1.
+  - unfold inst_of. cbn [on back chs]. unfold upd. rewrite N.eqb_refl. exact A1.
   - unfold upd. rewrite N.eqb_refl. exact A2.
   - rewrite plog_same, H3. symmetry. exact A4.
   - rewrite B1, B2. cbn [view q] in *. apply Rq_addall_same; [exact H4|exact Hs|exact HF].
@@ -238,24 +238,25 @@ Proof.
   destruct (HP (enc_at c') (enc_at c') [] _ _ HS) as [_ [evs [HF [B1 _]]]].
   split; [|cbn [on back mq]; rewrite B1, addall_tcur; reflexivity].
   constructor; cbn [on back chs orcs mlog mq].
-  - unfold upd. replace (c =? c') with false by lia. exact H1.
+  - rewrite <- H1. unfold inst_of. cbn [on back chs]. unfold upd. replace (c =? c') with false by lia.
+    destruct (chs M c); reflexivity.
   - unfold upd. replace (c =? c') with false by lia. exact H2.
   - rewrite plog_other by exact Hn. exact H3.
   - rewrite B1. cbn [view q] in *. apply Rq_addall_other; assumption.
 Qed.
 
-Notation moffer := (Multi.moffer own_instance tx mt).
-Notation sstep := (Model.step current enc_ev tx mt pbursts).
-Notation ssteps := (Model.steps current enc_ev tx mt pbursts).
-Notation mstep := (Multi.mstep own_instance tx mt mbursts).
-Notation msteps := (Multi.msteps own_instance tx mt mbursts).
+Notation moffer := (Multi.moffer own_instance txs mts).
+Notation sstep := (Model.step current enc_ev (txs c) (mts c) pbursts).
+Notation ssteps := (Model.steps current enc_ev (txs c) (mts c) pbursts).
+Notation mstep := (Multi.mstep own_instance txs mts mbursts).
+Notation msteps := (Multi.msteps own_instance txs mts mbursts).
 
 Definition offs_c (offs : list (N * N * N)) : list (N * N) := snd (projb (0, offs)).
 
 (* one handler invocation: the sends into c happen on both sides, the others only in the multi run *)
 Lemma fold_offers offs : forall M S,
   Rp M S -> (s_tcur (q S) = s_tcur (mq M) \/ offs_c offs = []) ->
-  Rp (fold_left moffer offs M) (fold_left (offer current enc_ev tx mt) (offs_c offs) S).
+  Rp (fold_left moffer offs M) (fold_left (offer current enc_ev (txs c) (mts c)) (offs_c offs) S).
 Proof.
   induction offs as [|[[c0 m] len] offs IH]; intros M S HR Hs; [exact HR|].
   cbn [fold_left]. unfold offs_c, projb in *. cbn [snd fst flat_map] in *.
@@ -263,10 +264,11 @@ Proof.
   assert (Hc0 : c0 mod NCH < NCH) by (apply N.mod_lt; discriminate).
   destruct (c0 mod NCH =? c) eqn:E.
   - apply N.eqb_eq in E. rewrite E in *. cbn [app fold_left]. destruct Hs as [Hs|Hs]; [|discriminate Hs].
-    destruct (on_same (fun e s => offer current e tx mt s (m, len)) M S (Par_offer tx mt (m, len)) HR Hs) as [HR' Hs'].
+    destruct (on_same (fun e s => offer current e (txs c) (mts c) s (m, len)) M S (Par_offer (txs c) (mts c) (m, len)) HR Hs) as [HR' Hs'].
     apply IH; [exact HR'|left; exact Hs'].
   - apply N.eqb_neq in E. cbn [app].
-    destruct (on_other (c0 mod NCH) (fun e s => offer current e tx mt s (m, len)) M S Hc0 E (Par_offer tx mt (m, len)) HR) as [HR' Ht'].
+    destruct (on_other (c0 mod NCH) (fun e s => offer current e (txs (c0 mod NCH)) (mts (c0 mod NCH)) s (m, len)) M S Hc0 E
+                (Par_offer (txs (c0 mod NCH)) (mts (c0 mod NCH)) (m, len)) HR) as [HR' Ht'].
     apply IH; [exact HR'|]. destruct Hs as [Hs|Hs]; [left; rewrite Ht'; exact Hs|right; exact Hs].
 Qed.
 
@@ -280,12 +282,15 @@ Proof.
   - unfold pbursts_of in *. cbn [map filter]. destruct (nonempty (projb b0)); cbn [length nth_error]; apply IH; assumption.
 Qed.
 
-(* one event of the multi run: nothing or one event of channel c's own run *)
-Lemma Rp_step M M' S :
-  Rp M S -> mstep M = Some M' -> Rp M' S \/ exists S', sstep S = Some S' /\ Rp M' S'.
+(* one event of the multi run: one event of channel c's own run if the event concerns c, else nothing *)
+Lemma Rp_step_head M M' S x r :
+  Rp M S -> pend (mq M) = x :: r -> mstep M = Some M' ->
+  match proj_ev (dec_mev (epay x)) with
+  | Some _ => exists S', sstep S = Some S' /\ Rp M' S'
+  | None => Rp M' S
+  end.
 Proof.
-  intros HR Hm. pose proof HR as [H1 H2 H3 H4]. unfold Multi.mstep in Hm.
-  destruct (pend (mq M)) as [|x r] eqn:E; [rewrite (fetch_nil _ E) in Hm; discriminate|].
+  intros HR E Hm. pose proof HR as [H1 H2 H3 H4]. unfold Multi.mstep in Hm.
   pose proof (rq_SIQ _ _ _ H4) as HQ. destruct (fetch_cons _ _ _ HQ E) as [Ho _].
   destruct (sp_fetch (mq M)) as [Q' o] eqn:EF. cbn [fst snd] in Ho. subst o. injection Hm as <-.
   set (M1 := {| chs := chs M; mq := Q'; orcs := orcs M; mlog := mlog M |}).
@@ -294,14 +299,14 @@ Proof.
   destruct (proj_ev (dec_mev (epay x))) as [e|] eqn:Ep.
   - (* an event of channel c *)
     destruct (Rq_fetch_same _ _ _ _ _ _ H4 E Ep) as [y [r' [EP [Hdy [_ [HR' Hs']]]]]]. rewrite <- EQ' in HR', Hs'.
-    pose proof (rq_SIP _ _ _ H4) as HP. right. rewrite (step_cons _ _ _ _ _ _ HP EP), Hdy.
+    pose proof (rq_SIP _ _ _ H4) as HP. rewrite (step_cons _ _ _ _ _ _ HP EP), Hdy.
     set (S1 := set_q S (fst (sp_fetch (q S)))).
     assert (HR1 : Rp M1 S1) by (constructor; cbn [M1 S1 set_q chs orcs mlog mq ch orc log q]; assumption).
     assert (Hs1 : s_tcur (q S1) = s_tcur (mq M1)) by exact Hs'.
     eexists. split; [reflexivity|].
     destruct (dec_mev (epay x)) as [c'|c' m|k]; cbn [proj_ev] in Ep; cbn [Multi.mdispatch].
     + destruct (c' =? c) eqn:Ec; [|discriminate]. apply N.eqb_eq in Ec. subst c'. injection Ep as <-. cbn [dispatch].
-      apply (on_same (fun e s => unbusy current e tx mt s) M1 S1 (Par_unbusy tx mt) HR1 Hs1).
+      apply (on_same (fun e s => unbusy current e (txs c) (mts c) s) M1 S1 (Par_unbusy (txs c) (mts c)) HR1 Hs1).
     + destruct (c' =? c) eqn:Ec; [|discriminate]. apply N.eqb_eq in Ec. subst c'. injection Ep as <-. cbn [dispatch].
       apply (on_same (fun _ s => handle_exit s m) M1 S1 (Par_exit m) HR1 Hs1).
     + destruct (nth_error mbursts (N.to_nat k)) as [[t offs]|] eqn:En; [|discriminate].
@@ -310,17 +315,25 @@ Proof.
       unfold pbursts. rewrite (rank_nth mbursts _ _ En Eb). unfold projb at 1.
       apply (fold_offers offs M1 S1 HR1 (or_introl Hs1)).
   - (* an event of another channel *)
-    left. pose proof (Rq_fetch_other _ _ _ _ _ H4 E Ep) as HR'. rewrite <- EQ' in HR'.
+    pose proof (Rq_fetch_other _ _ _ _ _ H4 E Ep) as HR'. rewrite <- EQ' in HR'.
     assert (HR1 : Rp M1 S) by (constructor; cbn [M1 chs orcs mlog mq]; assumption).
     destruct (dec_mev (epay x)) as [c'|c' m|k]; cbn [proj_ev] in Ep; cbn [Multi.mdispatch].
     + destruct (c' =? c) eqn:Ec; [discriminate|]. apply N.eqb_neq in Ec.
-      apply (on_other c' (fun e s => unbusy current e tx mt s) M1 S Hch Ec (Par_unbusy tx mt) HR1).
+      apply (on_other c' (fun e s => unbusy current e (txs c') (mts c') s) M1 S Hch Ec (Par_unbusy (txs c') (mts c')) HR1).
     + destruct (c' =? c) eqn:Ec; [discriminate|]. apply N.eqb_neq in Ec.
       apply (on_other c' (fun _ s => handle_exit s m) M1 S Hch Ec (Par_exit m) HR1).
     + unfold Multi.mwake. destruct (nth_error mbursts (N.to_nat k)) as [[t offs]|] eqn:En; [|exact HR1].
       destruct (nonempty (projb (t, offs))) eqn:Eb; [discriminate|].
       assert (Eo : offs_c offs = []) by (unfold offs_c, nonempty, projb in *; cbn [snd fst] in *; destruct (flat_map _ offs); [reflexivity|discriminate]).
       pose proof (fold_offers offs M1 S HR1 (or_intror Eo)) as HF. rewrite Eo in HF. exact HF.
+Qed.
+
+Lemma Rp_step M M' S :
+  Rp M S -> mstep M = Some M' -> Rp M' S \/ exists S', sstep S = Some S' /\ Rp M' S'.
+Proof.
+  intros HR Hm. destruct (pend (mq M)) as [|x r] eqn:E.
+  - unfold Multi.mstep in Hm. rewrite (fetch_nil _ E) in Hm. discriminate.
+  - pose proof (Rp_step_head M M' S x r HR E Hm) as H. destruct (proj_ev (dec_mev (epay x))); [right|left]; exact H.
 Qed.
 
 (* ---- the initial states ---- *)
@@ -354,8 +367,8 @@ Proof.
     rewrite dec_enc_mev by (unfold NCH; lia). cbn [lift proj_ev]. rewrite Nat2N.id, En, Ene. reflexivity.
 Qed.
 
-Lemma Rp_init template oracles :
-  Rp (minit mbursts template oracles) (init enc_ev pbursts (oracles c)).
+Lemma Rp_init oracles :
+  Rp (minit mbursts oracles) (init enc_ev pbursts (oracles c)).
 Proof.
   constructor; cbn [minit init chs orcs mlog mq ch orc log q]; try reflexivity.
   apply (Rq_sched mbursts [] sp_new sp_new eq_refl); [|reflexivity|reflexivity].
@@ -372,8 +385,8 @@ Proof.
 Qed.
 
 (* channel c of a multi-channel run is a single-channel run on c's part of the script *)
-Theorem multi_projects template oracles n :
-  exists k, Rp (msteps n (minit mbursts template oracles)) (ssteps k (init enc_ev pbursts (oracles c))).
+Theorem multi_projects oracles n :
+  exists k, Rp (msteps n (minit mbursts oracles)) (ssteps k (init enc_ev pbursts (oracles c))).
 Proof. apply Rp_steps, Rp_init. Qed.
 
 End Project.
